@@ -222,7 +222,7 @@ func runObjHandlers(p *core.Prog, r *core.Report, h *core.RuleH, need func(fn *s
 
 func init() {
 	register(&Check{ID: "C29", Level: "proof", Pkgs: []string{"./pkg/services/object"}, Run: runC29})
-	register(&Check{ID: "C45", Level: "proof", Pkgs: []string{"./pkg/services/object"}, Run: runC45})
+	register(&Check{ID: "C45", Level: "proof", Pkgs: []string{"./pkg/services/object", "./cmd/neofs-node"}, Run: runC45})
 }
 
 func runC29(p *core.Prog, r *core.Report) {
@@ -303,7 +303,7 @@ func runC29(p *core.Prog, r *core.Report) {
 }
 
 func runC45(p *core.Prog, r *core.Report) {
-	r.Explain = "Decides, for every client object RPC entry point (Get, Head/HeadBuffered, GetRange, Put per received message, Delete, Search/SearchV2Buffered; enumerated from the generated interface), that every call that touches local storage or other nodes is dominated on all CFG paths by LocalNodeUnderMaintenance()==false, and that Replicate (node-to-node) does not consult the maintenance flag. Not covered: the value LocalNodeUnderMaintenance returns."
+	r.Explain = "Decides, for every client object RPC entry point (Get, Head/HeadBuffered, GetRange, Put per received message, Delete, Search/SearchV2Buffered; enumerated from the generated interface), that every call that touches local storage or other nodes is dominated on all CFG paths by LocalNodeUnderMaintenance()==false, and that Replicate (node-to-node) does not consult the maintenance flag. (R3) the flag LocalNodeUnderMaintenance answers with has exactly two writers, the operator's start/stop switches, reachable only from the operator's status command — a network-map update or any other event cannot end (or start) maintenance. Not covered: the control service's own authorisation (C32)."
 	r1 := r.Rule("C45.R1", "every object-data effect in a client object RPC handler is dominated by LocalNodeUnderMaintenance()==false", 8)
 	runObjHandlers(p, r, r1, func(fn *ssa.Function, desc string) []string { return []string{gMaint} })
 	r2 := r.Rule("C45.R2", "the maintenance outcome returns a response built from apistatus.ErrNodeUnderMaintenance; Replicate is not refused", 6)
@@ -339,6 +339,48 @@ func runC45(p *core.Prog, r *core.Report) {
 			}
 			r2.Check(ok, core.FuncName(fn)+"#maintenance-status", p.InstrPos(s.Call), "maintenance outcome answers with ErrNodeUnderMaintenance", "the maintenance outcome does not answer with apistatus.ErrNodeUnderMaintenance")
 		}
+	}
+	// ---------------- R3 the flag the handlers ask has only the operator's writers
+	r3 := r.Rule("C45.R3", "the flag behind LocalNodeUnderMaintenance is written only by startMaintenance / stopMaintenance, and those are called only from the operator's status command (SetNetmapStatus / setMaintenanceStatus): nothing else — e.g. a network map update — can end maintenance", 4)
+	nodeFns := p.FuncsIn("cmd/neofs-node")
+	if len(nodeFns) == 0 {
+		r.Fatalf("C45.R3: cmd/neofs-node is not loaded")
+		return
+	}
+	writers := map[string]string{"(*cmd/neofs-node.cfg).startMaintenance": "operator starts maintenance", "(*cmd/neofs-node.internals).stopMaintenance": "operator stops maintenance"}
+	nW := 0
+	for _, s := range core.CallSites(nodeFns, func(s core.Site) bool {
+		switch s.Name {
+		case "(*sync/atomic.Bool).Store", "(*sync/atomic.Bool).Swap", "(*sync/atomic.Bool).CompareAndSwap":
+			_, path := core.AccessPath(s.Call.Common().Args[0])
+			return len(path) > 0 && path[len(path)-1] == "isMaintenance"
+		}
+		return false
+	}) {
+		nW++
+		o := core.FuncName(core.Outer(s.Fn))
+		why, ok := writers[o]
+		r3.Check(ok, o+"#writes-maintenance-flag", p.InstrPos(s.Call), "tabled writer: "+why, o+" writes the maintenance flag but is not one of the operator's two switches: object operations can be served again although the operator never stopped maintenance (or refused although it never started)")
+	}
+	if nW < 2 {
+		r.Fatalf("C45.R3: %d writers of the maintenance flag found, expected the two switches", nW)
+	}
+	core.CheckCallers(p, r3, nodeFns, []core.CallerRule{
+		{Sink: "(*cmd/neofs-node.cfg).startMaintenance", MinSites: 1, Allowed: map[string]string{"(*cmd/neofs-node.cfg).setMaintenanceStatus": "the operator's 'set status maintenance'"}},
+		{Sink: "(*cmd/neofs-node.internals).stopMaintenance", MinSites: 1, Allowed: map[string]string{"(*cmd/neofs-node.cfg).SetNetmapStatus": "the operator's 'set status online'"}},
+		{Sink: "(*cmd/neofs-node.cfg).setMaintenanceStatus", MinSites: 1, Allowed: map[string]string{"(*cmd/neofs-node.cfg).SetNetmapStatus": "the operator's status command"}},
+	})
+	// and the FSChain implementation the object service is given reads that very flag
+	if lm := p.Func("(*cmd/neofs-node.fsChainForObjects).LocalNodeUnderMaintenance"); lm == nil {
+		r.Fatalf("C45.R3: fsChainForObjects.LocalNodeUnderMaintenance not found")
+	} else {
+		okLoad := false
+		for _, s := range core.CallSites([]*ssa.Function{lm}, func(s core.Site) bool { return s.Name == "(*sync/atomic.Bool).Load" }) {
+			if _, path := core.AccessPath(s.Call.Common().Args[0]); len(path) > 0 && path[len(path)-1] == "isMaintenance" {
+				okLoad = true
+			}
+		}
+		r3.Check(okLoad, core.FuncName(lm)+"#reads-the-flag", p.Pos(lm.Pos()), "answers with the operator's flag", "LocalNodeUnderMaintenance no longer answers with the maintenance flag")
 	}
 }
 
